@@ -27,32 +27,38 @@ MANIFEST = dict(
          "which (without temperature sugar / digit separators) is exactly the tree the expression was elaborated from "
          "(list and struct literals included); C15_fixed_point_partial — re-elaborating that tree in a session with the same "
          "unit / function names gives a typed tree with the same echo (expressions without sugar and negative literals); "
-         "(3) C15_reassociation_refuted — the excluded class (a sum or product on the right loses its parentheses) is real. "
+         "(3) C15_decorator_echo — the echo of EVERY decorator (any strings, any alias list with accepts annotations) is read "
+         "back by the parser as that decorator; C15_definition_echo_partial — over a model of Statement::pretty_print for "
+         "let / unit / fn / dimension / struct definitions (decorators one per line, name, readable types as type-annotation trees, echo of the "
+         "body and of where-clauses) the echo of every echoable definition is accepted and read back as that definition "
+         "with the same decorators and types (tied token-wise to the implementation's echo on generated decorated definitions); "
+         "(4) C15_reassociation_refuted — the excluded class (a sum or product on the right loses its parentheses) is real. "
          "NOT proved, checked on the implementation only (echo oracle: interpret, echo, re-interpret the echo in a clone of "
-         "the session, compare acceptance, type, value to 1e-12, echo of the echo, and a probe expression): statements "
-         "(let/fn/unit/dimension/struct with inferred types, where-clauses, decorators), "
+         "the session, compare acceptance, type, value to 1e-12, echo of the echo, and a probe expression): how the readable "
+         "types of statements are computed (inference, generalisation), "
          "interpolated strings, the number formatter, elaboration of the temperature sugar, type equality, and the "
          "fixed-point clause outside the proved class.",
     design_ref="DESIGN.md §6 C15; design/syntax.md",
     note="Trusted: Coq kernel + vm_compute; the hand port of the expression printer in Syntax/TypedPrinter.v (tied on every run by "
          "comparing the tokens of the implementation's echo with the model's print of the intended typed tree) and of "
          "escape/strip in Syntax/StrEsc.v (strip_and_escape is also exercised by the C10 correspondence); the C10 parser model; "
-         "the generator's knowledge of how numbat elaborates its fully parenthesised sources. Seven echo defects were repaired by "
-         "fix: commits, three are open findings (multi-name dimension types, implicit dimension of a base unit, product "
+         "the generator's knowledge of how numbat elaborates its fully parenthesised sources. Eight echo defects were repaired by "
+         "fix: commits (phase 3: the echo of let / fn dropped the decorators, so aliases were lost), three are open findings (multi-name dimension types, implicit dimension of a base unit, product "
          "re-association not a fixed point).",
     technique="Coq proof (echo = concrete syntax tree; well-formedness by induction; reuse of the C10 round-trip theorem) + "
               "printer-model correspondence + metamorphic echo oracle on the real interpreter",
 )
 
 THEOREMS = ["C15_string_escape", "C15_roundtrip_partial", "C15_roundtrip_exact", "C15_fixed_point_partial",
-            "C15_reassociation_refuted"]
+            "C15_decorator_echo", "C15_definition_echo_partial", "C15_reassociation_refuted"]
 ALLOWED_AXIOMS = []
 EXTRA_VO = ["theories/Syntax/ExecTyped.vo"]
-MODEL_IMPORTS = ["Syntax.Ast", "Syntax.TypedPrinter", "Syntax.ExecTyped"]
+MODEL_IMPORTS = ["Syntax.Ast", "Syntax.StmtAst", "Syntax.TypedPrinter", "Syntax.TypeGrammar", "Syntax.DefEcho", "Syntax.ExecTyped"]
 TRUSTED = [
     "model Syntax/TypedPrinter.v is a hand port of typed_ast.rs impl PrettyPrint for Expression / pretty_print_binop / with_parens / with_parens_liberal / call_syntax / is_temperature_sugar; Syntax/StrEsc.v of pretty_print.rs escape_numbat_string and parser.rs strip_and_escape",
     "correspondence: tokens of the implementation's echo (numbat::verif::syntax::dump_tokens) vs Syntax.ExecTyped.show_pp of the typed tree the generator intends (vm_compute in coqc)",
     "the parser model of C10 (Syntax/Parser.v), tied to parser.rs by the C10 check",
+    "model Syntax/DefEcho.v (echo_deco, pp_def) is a hand port of typed_ast.rs decorator_markup and Statement::pretty_print for DefineVariable / DefineDerivedUnit / DefineFunction / DefineDimension / DefineStruct with the readable types given; tied token-wise on generated decorated definitions (Syntax.ExecTyped.show_def)",
     "oracle: harness `echo` interprets through the public API numbat::Context::interpret and Statement::pretty_print",
 ]
 
@@ -78,7 +84,125 @@ def model_items(chk, binary, quick):
     chk.cov["model_cases_generated"] = len(trees)
     for c in cases:
         c.update(kind="typed-tree", feat=[])
-    return items, idx, cases, res
+    # definitions with decorators: the echo of let / unit / fn (Syntax/DefEcho.v) token-wise, and the oracle
+    # with a probe that uses an alias
+    dcases, dterms = def_cases(chk.rng, 90 if quick else 600)
+    dres = run_echo(binary, dcases)
+    dkeep = [n for n, r in enumerate(dres) if r["status"] == "OK"]
+    ddumps = common.run_harness(binary, "syntax", [L.hexline(dres[n]["echo"]) for n in dkeep])
+    for n, dline in zip(dkeep, ddumps):
+        toks = dline[2:].split(" | A ", 1)[0] if dline.startswith("T ") else dline
+        items.append(("show_def " + dterms[n], toks))
+        idx.append({"source": dcases[n]["stmt"], "echo": dres[n]["echo"]})
+    chk.cov["definition_echo_cases"] = "%d generated, %d accepted and compared token-wise with the model" % (len(dcases), len(dkeep))
+    return items, idx, cases + dcases, res + dres
+
+
+DECO_STRS = ["abc", "a b", "x\ny", 'q"q', "back\\slash", "ü°", "", "tab\there", "https://numbat.dev/doc?a=1&b=2"]
+ACCEPTS = [None, "short", "long", "both", "none"]
+
+
+def def_cases(rng, count):
+    """decorated let / unit / fn definitions: (echo cases, Coq terms of type Syntax.DefEcho.edef)"""
+    from props import ttree
+    cs = ttree.cstr
+    scalar = "(YIdent %s None)" % cs("Scalar")
+    length = "(YIdent %s None)" % cs("Length")
+    cases, terms = [], []
+    for k in range(count):
+        kind = rng.choice(["let", "let", "unit", "unit", "fn", "dimension", "struct", "genfn"])
+        if kind in ("dimension", "struct", "genfn"):
+            yi = lambda n: "(YIdent %s None)" % cs(n)
+            if kind == "dimension":
+                name = "Dq%d" % k
+                alt = rng.choice([None,
+                                  ("Length * Time / Mass^2", "(YDiv (YMul %s %s) (YPow %s (XNum %s)))" % (yi("Length"), yi("Time"), yi("Mass"), cs("2"))),
+                                  ("Length / Time^(1/2)", "(YDiv %s (YPow %s (XParDiv (XNum %s) (XNum %s))))" % (yi("Length"), yi("Time"), cs("1"), cs("2"))),
+                                  ("Mass^(-1)", "(YPow %s (XPar (XMinus (XNum %s))))" % (yi("Mass"), cs("1"))),
+                                  ("(Length * Time)^3", "(YPow (YParen (YMul %s %s)) (XNum %s))" % (yi("Length"), yi("Time"), cs("3")))])
+                stmt = "dimension %s" % name + (" = " + alt[0] if alt else "")
+                term = "(EDDimension %s [%s])" % (cs(name), alt[1] if alt else "")
+                probe = "1"
+            elif kind == "struct":
+                name = "Sq%d" % k
+                pool = [("a", "Scalar", yi("Scalar")), ("b", "Length", yi("Length")), ("c", "Bool", "YBool"),
+                        ("d", "String", "YString"), ("e", "List<Scalar>", "(YList %s)" % yi("Scalar"))]
+                fs = [f for f in pool if rng.random() < 0.6]
+                stmt = "struct %s { %s }" % (name, ", ".join("%s: %s" % (f, t) for f, t, _ in fs)) if fs else "struct %s {}" % name
+                term = "(EDStruct %s [] [%s])" % (cs(name), "; ".join("(%s, %s)" % (cs(f), c) for f, _, c in fs))
+                probe = "1"
+            else:
+                name = "gq%d" % k
+                body = ("bin", "Mul", ("id", "x"), ("id", "y"))
+                stmt = "fn %s<D: Dim>(x: D, y: D^2) -> D^3 = %s" % (name, ttree.src(body))
+                term = "(EDFn [] %s [(%s, true)] [(%s, %s); (%s, (YPow %s (XNum %s)))] (YPow %s (XNum %s)) (Some %s) [])" % (
+                    cs(name), cs("D"), cs("x"), yi("D"), cs("y"), yi("D"), cs("2"), yi("D"), cs("3"), ttree.coq(body))
+                probe = "%s(2 m, 3 m^2)" % name
+            cases.append(dict(setup=echogen.SETUP, stmt=stmt, probe=probe, kind="echoed-definition", feat=[]))
+            terms.append(term)
+            continue
+        decos_src, decos_coq, aliases = [], [], []
+
+        def text_deco(word, ctor):
+            t = rng.choice(DECO_STRS)
+            decos_src.append('@%s("%s")' % (word, ttree.esc_src(t)))
+            decos_coq.append("(%s %s)" % (ctor, cs(t)))
+        if rng.random() < 0.7:
+            text_deco("name", "DName")
+        if rng.random() < 0.5:
+            text_deco("url", "DUrl")
+        if rng.random() < 0.5:
+            text_deco("description", "DDescription")
+        if kind == "fn" and rng.random() < 0.6:
+            c = rng.choice(["f%dq(1)" % k, "2 + 2"])
+            if rng.random() < 0.5:
+                d = rng.choice(DECO_STRS)
+                decos_src.append('@example("%s", "%s")' % (ttree.esc_src(c), ttree.esc_src(d)))
+                decos_coq.append("(DExample %s (Some %s))" % (cs(c), cs(d)))
+            else:
+                decos_src.append('@example("%s")' % ttree.esc_src(c))
+                decos_coq.append("(DExample %s None)" % cs(c))
+        if kind == "unit" and rng.random() < 0.5:
+            w = rng.choice(["metric_prefixes", "binary_prefixes"])
+            decos_src.append("@" + w)
+            decos_coq.append("DMetricPrefixes" if w == "metric_prefixes" else "DBinaryPrefixes")
+        if kind != "fn" and rng.random() < 0.8:
+            names = ["al%d%s" % (k, x) for x in "abc"[:rng.randint(1, 3)]]
+            parts_src, parts_coq = [], []
+            for nm in names:
+                a = rng.choice(ACCEPTS) if kind == "unit" else None
+                parts_src.append(nm + (": " + a if a else ""))
+                parts_coq.append("(%s, %s)" % (cs(nm), "None" if a is None else "Some Ac" + a.capitalize()))
+            aliases = names
+            decos_src.append("@aliases(%s)" % ", ".join(parts_src))
+            decos_coq.append("(DAliases [%s])" % "; ".join(parts_coq))
+        order = list(range(len(decos_src)))
+        rng.shuffle(order)
+        decos_src = [decos_src[i] for i in order]
+        decos_coq = [decos_coq[i] for i in order]
+        dlist = "[%s]" % "; ".join(decos_coq)
+        head = "".join(d + "\n" for d in decos_src)
+        if kind == "let":
+            name = "vq%d" % k
+            body = rng.choice([("num", "1"), ("bin", "Add", ("num", "2"), ("num", "3"))])
+            stmt = head + "let %s = %s" % (name, ttree.src(body))
+            term = "(EDLet %s %s %s %s)" % (dlist, cs(name), scalar, ttree.coq(body))
+            probe = (aliases[0] if aliases else name) + " + 1"
+        elif kind == "unit":
+            name = "unq%d" % k
+            body = ("bin", "Mul", ("num", rng.choice(["2", "10"])), ("unit", "m"))
+            stmt = head + "unit %s: Length = %s" % (name, ttree.src(body))
+            term = "(EDUnit %s %s %s (Some %s))" % (dlist, cs(name), length, ttree.coq(body))
+            probe = "3 " + (aliases[0] if aliases else name)
+        else:
+            name = "f%dq" % k
+            body = ("bin", "Add", ("id", "x"), ("num", "1"))
+            stmt = head + "fn %s(x: Scalar) -> Scalar = %s" % (name, ttree.src(body))
+            term = "(EDFn %s %s [] [(%s, %s)] %s (Some %s) [])" % (dlist, cs(name), cs("x"), scalar, scalar, ttree.coq(body))
+            probe = "%s(2)" % name
+        cases.append(dict(setup=echogen.SETUP, stmt=stmt, probe=probe, kind="decorated-definition", feat=[]))
+        terms.append(term)
+    return cases, terms
 
 KNOWN = [f for f in common.load_known() if f.get("property") == "C15"]
 
